@@ -405,3 +405,48 @@ def killed_command_leg(run, n2, rng):
         finally:
             shutil.rmtree(d, ignore_errors=True)
     return dict(stats)
+
+
+def showincludes_bytes_leg(run, n2):
+    """deps = msvc with header names that are not UTF-8 (Latin-1) or multi-byte: the worker thread must deliver its result (a panic
+    there leaves the run loop waiting forever), the names are recorded byte for byte and keep working as dependencies"""
+    d = tempfile.mkdtemp(prefix="n2verif-task-%d-" % os.getpid())
+    try:
+        names = [b"caf\xe9.h", "日本.h".encode(), b"inc/\xff\xfe.h", b"plain.h"]
+        os.makedirs(os.path.join(d, "inc"))
+        for nm in names:
+            with open(os.path.join(d.encode(), nm), "wb") as f:
+                f.write(b"h\n")
+            os.utime(os.path.join(d.encode(), nm), (1000000000, 1000000000))
+        with open(os.path.join(d, "cl.sh"), "wb") as f:
+            f.write(b"#!/bin/sh\n" + b"".join(b"printf 'Note: including file: %s\\n' '" + nm + b"'\n" for nm in names) + b"echo done-compiling\ncat in.c > $1\n")
+        os.chmod(os.path.join(d, "cl.sh"), 0o755)
+        write(d, "build.ninja", "rule cl\n  command = ./cl.sh $out\n  deps = msvc\nbuild out.obj: cl in.c\nbuild final: cl out.obj\n")
+        write(d, "in.c", "int x;\n", 1000000000)
+        where = {"project": "deps=msvc step reporting headers named %r" % names}
+        try:
+            rc, out = n2run(n2, d, ["-j", "2", "final"], timeout=60)
+        except subprocess.TimeoutExpired:
+            run.report_failure(None, "n2 hangs: a deps=msvc command reported a header whose name is not UTF-8 and the build never finished (60 s)", where)
+            return
+        if rc != 0 or "ran 2 tasks" not in out:
+            run.report_failure(None, "msvc-deps step with non-UTF-8 header names did not build: rc=%d %s" % (rc, out[-300:]), where)
+            return
+        recs = read_db(os.path.join(d, ".n2_db")) or []
+        mine = [deps for outs, deps in recs if outs == [b"out.obj"]]
+        if not mine or mine[-1] != names:
+            run.report_failure(None, "recorded dependencies %r differ from the reported header names %r" % (mine[-1] if mine else None, names), where)
+        rc, out = n2run(n2, d, ["final"], timeout=60)
+        if "no work to do" not in out:
+            run.report_failure(None, "second build is not a null build: %r" % out[-200:], where)
+            return
+        for nm in names[:2]:
+            with open(os.path.join(d.encode(), nm), "wb") as f:
+                f.write(b"h2\n")
+            os.utime(os.path.join(d.encode(), nm), (1000000200, 1000000200))
+            rc, out = n2run(n2, d, ["final"], timeout=60)
+            if "ran " not in out or rc != 0:
+                run.report_failure(None, "editing header %r, reported through /showIncludes, did not rebuild the step: %r" % (nm, out[-200:]), where)
+                break
+    finally:
+        shutil.rmtree(d, ignore_errors=True)
